@@ -131,8 +131,8 @@ def rule_LV2(ctx, rep):
     z = [s for s in iter_nodes(init.node) if isinstance(s, ast.Assign) and _is_level(s.targets[0])]
     if not z or const_int(z[0].value) != 0:
         rep.bad('LV2', init, init.qualname, 'pending level does not start at 0', init.node)
-    if n < 6:
-        raise AnalysisError(f'LV2: only {n} writes to _pc_level found (expected >= 6)')
+    if n < 4:    # the increment and a release in the launcher, the release in the reconciler, the initialisation
+        raise AnalysisError(f'LV2: only {n} writes to _pc_level found (expected >= 4)')
 
 
 class _Wait:
@@ -225,6 +225,17 @@ def rule_LV3(ctx, rep):
             rep.ok('LV3', fn, c, 'all-to-all transfer awaited before any connection is closed')
     if not good:
         rep.bad('LV3', fn, closes[0], 'connections are closed without first awaiting an all-party synchronisation (a peer may still need this connection)')
+    # the future that unset_protocol() resolves when the last connection is gone must exist before the synchronisation: a peer that
+    # gets through first may close its connections while this party has not been resumed yet
+    futs = [s_ for s_ in iter_nodes(fn.node) if isinstance(s_, ast.Assign) and any(isinstance(t_, ast.Attribute) and t_.attr == 'protocol' for t_ in s_.targets)
+            and isinstance(s_.value, ast.Call) and attr_tail(s_.value.func) == 'Future']
+    sync = [c for c in tr if isinstance(astq.enclosing_stmt(c, pm), ast.Expr)]
+    if futs and sync:
+        if astq.position(futs[0]) < astq.position(sync[0]) and any(futs[0] is s_ for s_ in fn.node.body):
+            rep.ok('LV3', fn, futs[0], 'the completion future awaited at the end is installed before the all-party synchronisation')
+        else:
+            rep.bad('LV3', fn, futs[0], 'the future resolved by unset_protocol() is installed only after the all-party synchronisation: a peer that finishes first can close '
+                    'its connections before it exists, the last connection_lost resolves a stale future, and this party waits in shutdown forever')
     # who closes: client side of each connection
     lp = [l for l in enclosing_loops(closes[0], pm, stop=fn.node) if isinstance(l, ast.For)]
     st = model.func('runtime::Runtime.start')
